@@ -25,11 +25,22 @@ Boundary == { SetU16(Ref, 16, 3563), SetU16(Ref, 16, 3564), SetU16(Ref, 16, 4095
               SetByte(Ref, 15, 0), SetByte(Ref, 15, 16), SetByte(Ref, 15, 32),
               SetByte(Ref, 5, 31), SetByte(Ref, 5, 33), SetByte(Ref, 0, 6), SetByte(Ref, 1, 63), SetByte(Ref, 1, 65) }
 
-Init == /\ mode \in {"flip", "bound", "run"}
+\* ---- sanity over sequences: the reference header version is the one of the FIRST header of the link, whatever else is wrong with it ----
+SLetter == [ver : {6, 7}, fault : {"none", "sysid", "priority", "fee_reserved", "rdh0_reserved", "header_size"}]
+MkSane(l) == LET a == SetByte(Ref, 0, l.ver) IN
+             CASE l.fault = "none" -> a
+               [] l.fault = "sysid" -> SetByte(a, 5, 33)
+               [] l.fault = "priority" -> SetByte(a, 4, 1)
+               [] l.fault = "fee_reserved" -> SetByte(a, 2, 7 + 64)
+               [] l.fault = "rdh0_reserved" -> SetByte(a, 6, 1)
+               [] l.fault = "header_size" -> SetByte(a, 1, 65)
+
+Init == /\ mode \in {"flip", "bound", "run", "sane3"}
         /\ hist = << >>
         /\ c \in CASE mode = "flip"  -> [its : BOOLEAN, n : 0..511]
                   [] mode = "bound" -> [its : BOOLEAN, r : Boundary]
                   [] mode = "run"   -> {[its |-> FALSE]}
+                  [] mode = "sane3" -> [its : BOOLEAN, s : [1..3 -> SLetter]]
 Next == /\ mode = "run" /\ Len(hist) < 3
         /\ \E l \in Letter : (Len(hist) = 0 => l.page = 0) /\ (Len(hist) = 1 => l.page = 1) /\ hist' = Append(hist, l)
         /\ UNCHANGED << mode, c >>
@@ -42,6 +53,7 @@ SaneSeq(rs, its) == [i \in 1..Len(rs) |-> SaneViolations(rs[i], Version(rs[1]), 
 CaseSeq == CASE mode = "flip" -> << Ref, FlipBit(Ref, c.n) >>
              [] mode = "bound" -> << Ref, c.r >>
              [] mode = "run" -> [i \in 1..Len(hist) |-> MkRdh(hist[i])]
+             [] mode = "sane3" -> [i \in 1..3 |-> MkSane(c.s[i])]
 Emit == (mode # "run" \/ Len(hist) = 3) =>
            PrintT("CASE " \o ToJson([mode |-> mode, its |-> c.its, seq |-> CaseSeq,
                                     sane |-> SaneSeq(CaseSeq, c.its), run |-> RunAll(RunInit, CaseSeq)]))
